@@ -423,6 +423,14 @@ func (c *Cache) Snapshot() (*Cache, error) {
 	return c.snapshot, nil
 }
 
+// hasRetainedSnapshot reports whether the cache still holds a snapshot whose write to
+// disk failed; the next call to Snapshot returns that snapshot again.
+func (c *Cache) hasRetainedSnapshot() bool {
+	c.mu.RLock()
+	defer c.mu.RUnlock()
+	return c.snapshot != nil && c.snapshot.Size() > 0
+}
+
 // Deduplicate sorts the snapshot before returning it. The compactor and any queries
 // coming in while it writes will need the values sorted.
 func (c *Cache) Deduplicate() {
